@@ -164,3 +164,17 @@ Example empty_file_example :
   let out := send_file 2048 (@nil nat) [Some 0] [Drain] in
   messages out = [mkMsg (Some 0) ENone true] /\ received out 0 = Some [].
 Proof. split; reflexivity. Qed.
+
+(* the outcome does not depend on how the client cut the file into chunks *)
+Theorem chunking_independent : forall {A} (c1 c2 : list (list A)) targets behs,
+  c1 <> [] -> c2 <> [] -> concat c1 = concat c2 ->
+  messages (send_chunks c1 targets behs) = messages (send_chunks c2 targets behs) /\
+  finished (send_chunks c1 targets behs) = finished (send_chunks c2 targets behs) /\
+  forall o, received (send_chunks c1 targets behs) o = received (send_chunks c2 targets behs) o.
+Proof.
+  intros A c1 c2 targets behs H1 H2 Hc. unfold send_chunks.
+  destruct c1 as [|x1 t1]; [congruence|]. destruct c2 as [|x2 t2]; [congruence|].
+  cbn [messages finished received]. repeat split.
+  intros o. destruct (existsb (target_eqb (Some o)) (dedupe targets)); [|reflexivity].
+  unfold engine_reads. rewrite Hc. reflexivity.
+Qed.
